@@ -327,6 +327,8 @@ class Program:
                 okw["data_first_search"] = decl["dfs"]
             if decl.get("ci"):
                 okw["case_insensitive"] = True
+            elif decl.get("base") is not None:
+                okw["case_insensitive"] = False     # explicit: a subclass without Options would inherit the base's
             if okw:
                 attrs["__options__"] = Options(**okw)
             if decl.get("base") is not None:
@@ -947,7 +949,8 @@ def g_input(rng, env, k, depth=0, p_provide=0.55, junk=0.06):
         items.append(1)
     if env[k]["kind"] != "func":
         # another letter case of a key: accepted by a case-insensitive class for its own fields, unknown otherwise
-        p_case = 0.25 if (env[k].get("ci") or any(f["name"].lower() != f["name"] for f in fields_of(env, k))) else 0.03
+        anyci = env[k].get("ci") or (env[k].get("base") is not None and env[env[k]["base"]].get("ci"))
+        p_case = 0.25 if (anyci or any(f["name"].lower() != f["name"] for f in fields_of(env, k))) else 0.03
         keys = [swapcase_key(rng, x) if rng.random() < p_case else x for x in keys]
     order = sorted(range(len(keys)), key=lambda i: keys[i])
     if rng.random() < 0.3:
@@ -1056,8 +1059,8 @@ def g_case(rng, maxops=7, p_fresh=0.03):
             own.append({"name": "e", "ty": "int", "default": None})
         env.append({"kind": env[nenv - 1]["kind"] if base is not None else rng.choice(["schema", "dataclass"]),
                     "late": True, "base": base,
-                    # (a case-sensitive subclass of a case-insensitive base is left out: the inherited aliases stay lower-cased)
-                    "ci": True if (base is not None and env[base].get("ci")) else rng.random() < 0.6,
+                    # any combination: an inherited field keeps the case sensitivity its declaring class set it up with
+                    "ci": rng.random() < 0.55,
                     "dfs": rng.choice([None, True, False]), "fields": own})
         late_at = rng.randint(1, nops - 2)
     ops = []
